@@ -224,8 +224,13 @@ impl<NonceSize: Unsigned, Rounds, IsX> StreamCipherSeek for ChaChaAny<NonceSize,
         } else {
             SMALL_LEN
         };
-        // Blocks generated so far, including a buffered one.
-        let blocks = total.wrapping_sub(self.state.len);
+        // Blocks generated so far, including a buffered one. All 2^64 blocks of a 64-bit counter
+        // are used up when no blocks are left and the state is not the initial one.
+        let blocks: u128 = if NonceSize::U32 != 12 && self.state.len == 0 && !self.state.fresh {
+            1u128 << 64
+        } else {
+            u128::from(total.wrapping_sub(self.state.len))
+        };
         let have = self.state.have;
         if have > 0 {
             // `have` bytes of the most recent block are still unread.
